@@ -318,6 +318,8 @@ func (r *writerRun) classifyW(err error) Ev {
 	switch {
 	case err == websocket.ErrCloseSent:
 		e["cls"] = "closesent"
+	case err == errSrc:
+		e["cls"] = "src"
 	case r.xerrs[err]:
 		e["cls"] = "xerr"
 	case errors.As(err, &ne) && ne.Timeout():
@@ -424,10 +426,16 @@ type chunkReader struct {
 	data   []byte
 	chunks []int
 	eofw   bool
+	fail   bool // the source fails (errSrc) instead of ending with io.EOF
 }
+
+var errSrc = errors.New("verif: source reader failed")
 
 func (c *chunkReader) Read(p []byte) (int, error) {
 	if len(c.data) == 0 {
+		if c.fail {
+			return 0, errSrc
+		}
 		return 0, io.EOF
 	}
 	n := len(c.data)
@@ -446,6 +454,9 @@ func (c *chunkReader) Read(p []byte) (int, error) {
 	copy(p, c.data[:n])
 	c.data = c.data[n:]
 	if len(c.data) == 0 && c.eofw {
+		if c.fail {
+			return n, errSrc
+		}
 		return n, io.EOF
 	}
 	return n, nil
@@ -661,12 +672,18 @@ func (r *writerRun) exec(fault *WFault, outp *[]Ev) (out []Ev) {
 				var n64 int64
 				n64, err = io.Copy(wc.w, &chunkReader{data: data, chunks: append([]int{}, op.Chunks...), eofw: op.EOFW})
 				n = int(n64)
+			case "rfe":
+				// the source of the copy fails after op.N bytes: the writer has taken those bytes and stays usable
+				var n64 int64
+				n64, err = io.Copy(wc.w, &chunkReader{data: data, chunks: append([]int{}, op.Chunks...), eofw: op.EOFW, fail: true})
+				n = int(n64)
+				ev["e"] = "WRS"
 			default:
 				n, err = wc.w.Write(data)
 			}
 			ev["n"], ev["ret"], ev["via"], ev["m"] = op.N, n, op.Via, wc.curMsg
 			ev["tx"] = r.takeTx()
-			if err != nil {
+			if err != nil && err != errSrc {
 				wc.open = false
 			}
 		case "CL":
